@@ -186,7 +186,7 @@ def ledger_obligations(rep, c, prop, want, kinds=("assert", "call"), rules=None,
             cls, bound, detail = r if r else ("UNBOUNDED", None, "function could not be analysed")
             if cls == "UNBOUNDED":
                 f0 = c.fn(fnp[s.fn])
-                if f0 is not None and f0.get("exported"):
+                if f0 is not None:
                     # size comes from a parameter of a public function: bounded if every in-crate caller passes a bounded value
                     acw = analysis_closed(c)
                     it2 = acw.interp(fnp[s.fn])
